@@ -99,7 +99,7 @@ impl<'tcx> Interp<'tcx> {
     }
 
     /// call a closure value with untupled arguments; returns partitions
-    pub fn call_closure(&mut self, st: &State, f: &Val, fty: Ty<'tcx>, args: Vec<Val>) -> Vec<(State, Val)> {
+    pub fn call_closure(&mut self, st: State, f: &Val, fty: Ty<'tcx>, args: Vec<Val>) -> Vec<(State, Val)> {
         let fty = match fty.kind() {
             ty::Ref(_, inner, _) => *inner,
             _ => fty,
@@ -110,9 +110,9 @@ impl<'tcx> Interp<'tcx> {
                 let inst = Instance::resolve_closure(self.tcx, *def, cargs, kind);
                 let Some(bi) = self.body_of(inst) else {
                     self.unsupported("closure-body");
-                    return vec![(st.clone(), Val::Top)];
+                    return vec![(st, Val::Top)];
                 };
-                let mut s = st.clone();
+                let mut s = st;
                 let envty = bi.body.local_decls[rustc_middle::mir::Local::from_u32(1)].ty;
                 let fval = match f {
                     Val::Ref(p) => self.read_ptr(&s, p),
@@ -135,7 +135,7 @@ impl<'tcx> Interp<'tcx> {
                 av.extend(args);
                 let r = self.call_instance(s, inst, av);
                 match r {
-                    Some(mut parts) => {
+                    Ok(mut parts) => {
                         if let Some(p) = tmp {
                             for (s, _) in parts.iter_mut() {
                                 self.free_temp(s, &p);
@@ -143,19 +143,22 @@ impl<'tcx> Interp<'tcx> {
                         }
                         parts
                     }
-                    None => vec![(st.clone(), Val::Top)],
+                    Err(s) => vec![(s, Val::Top)],
                 }
             }
             ty::FnDef(def, fargs) => {
                 let inst = Instance::try_resolve(self.tcx, self.env, *def, fargs).ok().flatten();
-                match inst.and_then(|i| self.call_instance(st.clone(), i, args)) {
-                    Some(p) => p,
-                    None => vec![(st.clone(), Val::Top)],
+                match inst {
+                    Some(i) => match self.call_instance(st, i, args) {
+                        Ok(p) => p,
+                        Err(s) => vec![(s, Val::Top)],
+                    },
+                    None => vec![(st, Val::Top)],
                 }
             }
             _ => {
                 self.unsupported("call-closure-type");
-                vec![(st.clone(), Val::Top)]
+                vec![(st, Val::Top)]
             }
         }
     }
@@ -228,7 +231,7 @@ impl<'tcx> Interp<'tcx> {
                 Next::Item(v, m) => {
                     let t = self.closure_tys[*fty];
                     let f = f.clone();
-                    let parts = self.call_closure(st, &f, t, vec![v]);
+                    let parts = self.call_closure(std::mem::replace(st, State { frames: Vec::new(), atoms: Vec::new() }), &f, t, vec![v]);
                     match self.join_parts(parts) {
                         Some((s, r)) => {
                             *st = s;
@@ -246,7 +249,7 @@ impl<'tcx> Interp<'tcx> {
                         let f = f.clone();
                         // the predicate receives a reference to the item
                         let p = self.temp_slot(st, v.clone());
-                        let parts = self.call_closure(st, &f, t, vec![Val::Ref(p.clone())]);
+                        let parts = self.call_closure(std::mem::replace(st, State { frames: Vec::new(), atoms: Vec::new() }), &f, t, vec![Val::Ref(p.clone())]);
                         let Some((mut s, r)) = self.join_parts(parts) else { return Next::Unknown };
                         self.free_temp(&mut s, &p);
                         *st = s;
@@ -273,7 +276,7 @@ impl<'tcx> Interp<'tcx> {
                     Next::Item(v, false) => {
                         let t = self.closure_tys[*fty];
                         let f = f.clone();
-                        let parts = self.call_closure(st, &f, t, vec![v]);
+                        let parts = self.call_closure(std::mem::replace(st, State { frames: Vec::new(), atoms: Vec::new() }), &f, t, vec![v]);
                         let Some((s, r)) = self.join_parts(parts) else { return Next::Unknown };
                         *st = s;
                         match r {
@@ -316,7 +319,14 @@ impl<'tcx> Interp<'tcx> {
                 owned = name[i..].to_string();
                 owned.as_str()
             }
-            _ => name,
+            _ => {
+                if let Some(rest) = name.strip_prefix("sha2::Digest::").or_else(|| name.strip_prefix("sha3::Digest::")) {
+                    owned = format!("digest::Digest::{}", rest);
+                    owned.as_str()
+                } else {
+                    name
+                }
+            }
         };
         // ----- formatting machinery on panic paths: opaque
         if n.starts_with("core::fmt::") || n.starts_with("core::panic::") {
@@ -500,7 +510,7 @@ impl<'tcx> Interp<'tcx> {
                     let piece = if *k == 0 {
                         res_ok(fs.get(0).cloned().unwrap_or(Val::Top))
                     } else {
-                        let parts = self.call_closure(&cur, &a[1], tys[1], vec![fs.get(0).cloned().unwrap_or(Val::Top)]);
+                        let parts = self.call_closure(cur.clone(), &a[1], tys[1], vec![fs.get(0).cloned().unwrap_or(Val::Top)]);
                         let (s, r) = self.join_parts(parts)?;
                         cur = s;
                         res_err(r)
@@ -578,7 +588,15 @@ impl<'tcx> Interp<'tcx> {
         }
         if n == "core::slice::<impl [T]>::copy_from_slice" {
             let (db, ds, dl) = self.slice_elems(st, a.get(0)?)?;
-            let src = a.get(1)?;
+            let src0 = a.get(1)?;
+            let srcd = match src0 {
+                Val::Ref(p) => match self.read_ptr(st, p) {
+                    d @ Val::Opq(Opaque::Digest { .. }) => d,
+                    _ => src0.clone(),
+                },
+                other => other.clone(),
+            };
+            let src = &srcd;
             let srcv = match src {
                 Val::Opq(Opaque::Digest { .. }) => None,
                 _ => self.slice_elems(st, src),
@@ -659,12 +677,10 @@ impl<'tcx> Interp<'tcx> {
             let mut arr = ArrV::uniform(Val::Bot, nn);
             let f = a.get(0)?.clone();
             let slot = self.temp_slot(st, f);
-            let mut cur = st.clone();
+            let mut cur = std::mem::replace(st, State { frames: Vec::new(), atoms: Vec::new() });
             for i in 0..nn {
-                let parts = self.call_closure(&cur, &Val::Ref(slot.clone()), tys[0], vec![Val::konst(i as i128, ITy::USIZE)]);
+                let parts = self.call_closure(cur, &Val::Ref(slot.clone()), tys[0], vec![Val::konst(i as i128, ITy::USIZE)]);
                 let Some((s, r)) = self.join_parts(parts) else {
-                    *st = cur;
-                    self.free_temp(st, &slot);
                     return Some(vec![]);
                 };
                 cur = s;
@@ -787,7 +803,7 @@ impl<'tcx> Interp<'tcx> {
             loop {
                 match self.iter_next(st, &mut it) {
                     Next::Item(v, _) => {
-                        let parts = self.call_closure(st, &Val::Ref(slot.clone()), tys[1], vec![v]);
+                        let parts = self.call_closure(std::mem::replace(st, State { frames: Vec::new(), atoms: Vec::new() }), &Val::Ref(slot.clone()), tys[1], vec![v]);
                         let (s, _) = self.join_parts(parts)?;
                         *st = s;
                     }
@@ -817,7 +833,7 @@ impl<'tcx> Interp<'tcx> {
             loop {
                 match self.iter_next(&mut cur, &mut it) {
                     Next::Item(v, maybe) => {
-                        let parts = self.call_closure(&cur, &Val::Ref(slot.clone()), tys[1], vec![v.clone()]);
+                        let parts = self.call_closure(cur.clone(), &Val::Ref(slot.clone()), tys[1], vec![v.clone()]);
                         let mut t_state: Option<State> = None;
                         for (s, r) in parts {
                             let c = r.as_int().and_then(|i| i.is_const());
@@ -960,7 +976,8 @@ impl<'tcx> Interp<'tcx> {
             // GenericArray<u8, N> -> [u8]
             let v = self.deref_val(st, a.get(0)?);
             if let Val::Opq(Opaque::Digest { .. }) = v {
-                return one(v);
+                // keep a reference (to the digest value) so that reborrows `&*x` stay meaningful
+                return one(a[0].clone());
             }
             return None;
         }
